@@ -2,7 +2,8 @@
    analyse the stub is syntactically valid, type-checks, agrees with stubtest and is structurally faithful") quantifies
    over the whole emitter; only the signature core is modelled, the rest is searched by the cross-tool oracle (S). *)
 From Coq Require Import List String Bool.
-From C19 Require Import Sig Imports Ann.
+From C19 Require Import Sig Imports Ann Defaults Strs Emit.
+From Gen Require Import StubPreds.
 
 (* every parameter list Python's grammar can produce is printed so that it parses back to the same kinds, names,
    order, annotations (defaults as rendered) *)
@@ -29,3 +30,18 @@ Definition printed_sig_is_valid_python : Prop :=
 Definition ann_roundtrip : Prop := forall t, wf_ty t = true -> parse_ann (print_ty t) = Some (norm t).
 (* NOT modelled: analysed types (Instance, CallableType as reveal_type prints it), Tuple[()], unpack, the known_modules
    branch; default-value rendering (get_str_default_of_node) is carried as data by Sig.param, tied by the C stage only. *)
+
+(* default values: full statement (for EVERY default expression) *)
+Definition default_is_valid_expr_and_closed : Prop :=
+  forall len e, exists p, parse_default (default_tokens len e) = Some p /\ closed p = true.
+(* FALSE on the current tree: Properties.default_is_valid_expr_and_closed_refuted (float literal overflowing to inf);
+   proved for finite float literals: ..._partial, default_faithful. *)
+
+(* faithfulness clause of the property on the modelled module language: proved (Properties.public_members_preserved). *)
+Definition public_members_preserved : Prop := forall c l, all_covered c true l (emit_module c l).
+(* self-consistency clauses that are FALSE on the current tree for that language: *)
+Definition definitions_unique : Prop := forall c l n, count_name n (emit_module c l) <= 1.      (* F-C *)
+Definition references_defined : Prop :=                                                           (* F-M, F-F *)
+  forall c l env, (forall it, In it l -> True) -> refs_defined env (emit_module c l) = true.
+(* (references_defined is stated without the obvious side condition "the source defines or imports what it uses":
+   the refutation Properties.references_defined_refuted uses a source that does.) *)
